@@ -7,7 +7,7 @@ TRANSLATOR = ['drange']
 COQ_EXEC = ['exec.X_bdays']
 COQ_IMPORTS = 'From PB Require Import model.M_cal model.M_bdays.\n'
 PER_FILE = 6
-CASE_TIMEOUT = 120
+CASE_TIMEOUT = 20
 NLO, NHI = -40, 40
 RULE = ('cases: (a) one Calendar(key=None, holidays, weekend, t0, t1, adj) on a 1-3 year range starting 1950-2100 for every combination of holiday density '
         '{0, 5%, 20%, 50%} x weekend {Sat-Sun, Fri-Sat, Sun, none} x adj {f,p,m}, holidays = random days plus multi-day runs across month ends, around weekends and at '
